@@ -166,8 +166,10 @@ def build(vk, p, tmpdir=None):
                 random.Random(f"{p['seed']}/{b}/{s}").shuffle(items)
             return dict(items)
         pib = {b: {s: PreferenceInterval(interval_dict(b, s)) for s in p["blocs"]} for b in p["blocs"]}
+        # every dict is built in the order of p["blocs"], so a case replays identically after a JSON round trip
         kw = dict(slate_to_candidates={b: list(p["slates"][b]) for b in p["blocs"]}, pref_intervals_by_bloc=pib,
-                  bloc_voter_prop=dict(p["props"]), cohesion_parameters={b: dict(p["cohesion"][b]) for b in p["blocs"]})
+                  bloc_voter_prop={b: p["props"][b] for b in p["blocs"]},
+                  cohesion_parameters={b: {s: p["cohesion"][b][s] for s in p["blocs"]} for b in p["blocs"]})
         if kind == "pl":
             return BG.name_PlackettLuce(**kw)
         if kind == "short_pl":
